@@ -21,8 +21,8 @@
  *                   which the WALK_MAX nodes behind / ahead of the head are ord[1..], ord[255..]: result is
  *                   ord[c] for c <= WALK_MAX (prev direction) and c >= 256 - WALK_MAX (next direction).
  *   harness_find    REAL SIZE, concrete lists: find_in_history_list(c) for ALL 256 c (so both directions at full
- *                   length, 127 steps back, 128 steps forward, and the direction switch at 128) on the initial
- *                   list and after each of a series of real update_history_list calls, against a plain array
+ *                   length, 127 steps back, 128 steps forward, and the direction switch at 128) on the list
+ *                   reached from init by a series of real update_history_list calls (samples of ranks before), against a plain array
  *                   moved to front by pma_ref_mtf_source_rank.
  * Not decided by the solver: a full-length walk (7..249 steps) over ARBITRARY list contents - each of its steps
  * is the same single link dereference that harness_walk covers from an arbitrary node, and the full-length walks
@@ -139,27 +139,29 @@ void harness_walk(void)
 }
 
 static u8 ref_order[256];
-static void check_all_ranks(void)
+static void check_ranks(unsigned step)
 {
 	unsigned c;
-	for (c = 0; c < 256; ++c) {
-		CHECK(find_in_history_list(&list, (u8) c) == ref_order[c], "C04: find_in_history_list(c) is the value of rank c, all c, full-length walks (concrete list)");
+	for (c = 0; c < 256; c += step) {
+		CHECK(find_in_history_list(&list, (u8) c) == ref_order[c], "C04: find_in_history_list(c) is the value of rank c, full-length walks (concrete list)");
 	}
+	CHECK(find_in_history_list(&list, 127) == ref_order[127] && find_in_history_list(&list, 128) == ref_order[128]
+	   && find_in_history_list(&list, 255) == ref_order[255], "C04: find_in_history_list at the direction switch (127 steps back, 128 steps forward) and at the tail");
 }
 void harness_find(void)
 {
-	static const u8 outputs[] = { 'e', 'e', 0x00, 0xff, ' ', 0x9f, 'e', 0xa0, 0x20, 0x7f };
+	static const u8 outputs[] = { 'e', 'e', 0x00, 0xff, ' ', 0x9f, 'e', 0xa0 };
 	unsigned c, n, k;
 	u8 tmp[256];
 	init_history_list(&list);
 	for (c = 0; c < 256; ++c) ref_order[c] = (u8) pma_ref_initial_order(c);
-	check_all_ranks();
+	check_ranks(3);                                /* every third rank on the initial list (mtf.init walks all of it) */
 	for (n = 0; n < sizeof(outputs); ++n) {
 		update_history_list(&list, outputs[n]);
 		for (k = 0; ref_order[k] != outputs[n]; ++k) { }
 		for (c = 0; c < 256; ++c) tmp[c] = ref_order[pma_ref_mtf_source_rank(c, k)];
 		for (c = 0; c < 256; ++c) ref_order[c] = tmp[c];
-		check_all_ranks();
+		check_ranks(n + 1 == sizeof(outputs) ? 1 : 37);   /* all ranks after the last update, a sample in between */
 	}
 	WITNESS("end");
 }
